@@ -20,6 +20,25 @@ func Trunc(bits int, t *sym.Term) *sym.Term {
 	if t.Op == "ite" && t.Args[1].IsConst() && t.Args[2].IsConst() {
 		return sym.Ite(t.Args[0], Trunc(bits, t.Args[1]), Trunc(bits, t.Args[2]))
 	}
+	if bits == 8 {
+		// octet k (counted from the least significant) of limb j of the canonical representative of a ring element is
+		// octet 8*(3-j) + 7-k of its canonical big-endian encoding
+		w, sh := t, int64(0)
+		if t.Op == "shr64" && len(t.Args) == 2 {
+			if c, ok := t.Args[1].Int64(); ok && c >= 0 && c < 64 && c%8 == 0 {
+				w, sh = t.Args[0], c/8
+			}
+		}
+		if j, ok := limbOfCanonical(w); ok {
+			op := "fp_bytes"
+			if w.Args[0].Op == "int_of:fn" {
+				op = "fn_bytes"
+			}
+			enc := sym.App(sym.Bytes, op, w.Args[0].Args[0])
+			sym.SetBytesLen(enc, 32)
+			return ByteAt(enc, sym.ConstI(8*(3-j)+7-sh))
+		}
+	}
 	return sym.App(sym.Int, fmt.Sprintf("trunc%d", bits), t)
 }
 
